@@ -81,6 +81,7 @@ type c08Relay struct{ dup bool }
 type c08Propose struct{}
 type c08Challenge struct{}
 type c08Advance struct{}
+type c08Restart struct{ chain int }
 type c08Claim struct {
 	i     int
 	again bool
@@ -150,6 +151,7 @@ func (y *c08Sys) Letters(s *c08State) []engine.Letter {
 		ls = append(ls, engine.Letter{Name: "Challenge(deleteNewest)", Data: c08Challenge{}})
 	}
 	ls = append(ls, engine.Letter{Name: "Advance(10s)", Data: c08Advance{}})
+	ls = append(ls, engine.Letter{Name: "RestartL1ViaGenesis", Data: c08Restart{1}}, engine.Letter{Name: "RestartL2ViaGenesis", Data: c08Restart{2}})
 	n, again := 0, false
 	for i, w := range s.wds {
 		if w.Output > 0 && !w.Paid && n < 3 {
@@ -200,6 +202,17 @@ func (y *c08Sys) apply(s, c *c08State, data any) (string, *engine.Violation) {
 	case c08Advance:
 		c.c1 = world.Advance(c.c1, c08Period)
 		c.c2 = world.Advance(c.c2, c08Period)
+		return "ok", nil
+	case c08Restart:
+		var err error
+		if d.chain == 1 {
+			err = s.w1.RestartViaGenesis(c.c1)
+		} else {
+			err = s.w2.RestartViaGenesis(c.c2)
+		}
+		if err != nil {
+			return "error", viol("bridge-state-survives-a-restart", "chain %d: export / validate / import of the module genesis failed: %v", d.chain, err)
+		}
 		return "ok", nil
 	case c08L1Deposit:
 		if string(d.data) == "HOOK:withdraw" {
@@ -483,7 +496,7 @@ func init() {
 			res.Absorb("c08", rep)
 			res.Coverage["drains"] = y.drains.Load()
 			res.Coverage["drain_transitions"] = y.drainTx.Load()
-			res.Coverage["alphabet"] = "L1Deposit(alice; to∈{alice,garbage}; 1uxx|2uyy; data∈{∅, undecodable, a signed two-message hook tx in which the recipient withdraws half of the deposit again and sends the other half on}) ; L2Send; L2Withdraw(who∈{alice,bob}; l2x|l2y); RelayNextDeposit; RelayDuplicate; ProposeOutput(tree of all uncovered recorded withdrawals, independent builder); Challenge(delete newest); Advance(period); Claim(any covered unpaid); ClaimAgain(a paid one)"
+			res.Coverage["alphabet"] = "L1Deposit(alice; to∈{alice,garbage}; 1uxx|2uyy; data∈{∅, undecodable, a signed two-message hook tx in which the recipient withdraws half of the deposit again and sends the other half on}) ; L2Send; L2Withdraw(who∈{alice,bob}; l2x|l2y); RelayNextDeposit; RelayDuplicate; ProposeOutput(tree of all uncovered recorded withdrawals, independent builder); Challenge(delete newest); Advance(period); RestartL1ViaGenesis; RestartL2ViaGenesis (module genesis exported, validated, re-imported into the emptied store); Claim(any covered unpaid); ClaimAgain(a paid one)"
 			res.Coverage["oracle"] = "in every state and for both denoms: escrow_L1 = supply_L2 + pending deposits + recorded unpaid withdrawals (queues built from parsed events only); from every distinct state the deterministic drain (relay all, propose, advance, claim all) must make every claim succeed exactly once, a second claim fail, escrow = L2 supply and the users' combined holdings = initial holdings"
 			res.Assumptions = []string{"faithful relayer; both chains run in one process and are connected only by parsed events"}
 			for _, k := range []string{"RelayNextDeposit/relayed-credited", "RelayNextDeposit/relayed-refunded", "RelayDuplicate/noop", "ProposeOutput/accepted", "L2Withdraw/accepted"} {
